@@ -44,7 +44,8 @@ LONG = ["15_9", "12-34-12-34W5M", "1_000", "1_0.5", "1e1_0", "13/05/2015", "14:0
         "99999999999999999999", "1,000,000", "1.000.000", "1,5", "1.5", "+1.5e+3", "-.5e-3", "5.", ".5", "007", "00100", "1e5", "1E5",
         "1d5", "1 000", "12 34", "1-2", "1/2", "--5", "+-5", "1e", "e5", "1e+", "1.5.2", "0.0", "-0", "+0", "1__0", "_1", "1_",
         "100 123 456", "2.0", "NO", "YES", "05-10-15", "123456789012345678", "1.7976931348623157e308", "1.8e308", "4.9e-324", "1e-400",
-        "0,5e1", "3,14", "1,5,5", ",", ".", "-", "+", "e", "1e1e1", "1.e1", "٣", "１２", "1٣"]
+        "0,5e1", "3,14", "1,5,5", ",", ".", "-", "+", "e", "1e1e1", "1.e1", "٣", "１２", "1٣",
+        "12-34-12-34W5      NE/4", "LOGSOFT  REL 7", "a         b   c", "1     2", "1e5      x"]
 _ctx = None
 
 
